@@ -187,6 +187,7 @@ theorem step_inv (c : Cfg) (hR : 0 < c.R) (s : St) (e : Ev) (h : Inv c s) : Inv 
           · exact Nat.le_refl _
         have := finish_inv c _ i hrun (Or.inr ⟨hi, by rw [hi]; rfl⟩)
         simpa [Inv, finish] using this
+  | versions ks => exact h
 
 theorem init_inv (c : Cfg) : Inv c init := by simp [Inv, init]
 
@@ -200,18 +201,18 @@ theorem run_inv (c : Cfg) (hR : 0 < c.R) (s : St) (es : List Ev) (h : Inv c s) :
 
 theorem loaded_step (c : Cfg) (s : St) (e : Ev) (h : s.phase = .loaded) :
     (step c s e).1.phase = .loaded ∧ (step c s e).1.errors = s.errors ∧ (step c s e).1.loadedAt = s.loadedAt ∧
-    (step c s e).1.snap = s.snap ∧ (step c s e).1.t0 = s.t0 ∧ (step c s e).1.tx = s.tx ∧ (step c s e).2 = [] := by
+    (step c s e).1.snap = s.snap ∧ (step c s e).1.t0 = s.t0 ∧ (step c s e).1.tx = s.tx := by
   cases e <;> simp [step, h, markArrived]
 
 theorem loaded_run (c : Cfg) (s : St) (es : List Ev) (h : s.phase = .loaded) :
     (run c s es).1.phase = .loaded ∧ (run c s es).1.errors = s.errors ∧ (run c s es).1.loadedAt = s.loadedAt ∧
-    (run c s es).1.snap = s.snap ∧ (run c s es).1.t0 = s.t0 ∧ (run c s es).1.tx = s.tx ∧ (run c s es).2 = [] := by
+    (run c s es).1.snap = s.snap ∧ (run c s es).1.t0 = s.t0 ∧ (run c s es).1.tx = s.tx := by
   induction es generalizing s with
   | nil => simp [h]
   | cons e es ih =>
-    obtain ⟨h1, h2, h3, h4, h5, h6, h7⟩ := loaded_step c s e h
-    obtain ⟨i1, i2, i3, i4, i5, i6, i7⟩ := ih _ h1
-    simp [i1, i2, i3, i4, i5, i6, i7, h2, h3, h4, h5, h6, h7]
+    obtain ⟨h1, h2, h3, h4, h5, h6⟩ := loaded_step c s e h
+    obtain ⟨i1, i2, i3, i4, i5, i6⟩ := ih _ h1
+    simp [i1, i2, i3, i4, i5, i6, h2, h3, h4, h5, h6]
 
 theorem finish_snap (c : Cfg) (s : St) :
     (finish c s).1.phase = .loaded ∧ (finish c s).1.snap = (finish c s).1.arrived ∧
@@ -244,6 +245,7 @@ theorem loading_step (c : Cfg) (s : St) (e : Ev) (h : s.phase ≠ .loaded)
     cases hp : s.phase <;> simp only [hp] at hl ⊢ <;> try exact absurd hp h
     · simp at hl
     · (repeat' split) <;> simp_all [retry]
+  | versions ks => exact absurd hl h
 
 /-! ### completion -/
 
@@ -256,7 +258,9 @@ theorem sensors_leaves_waiting (c : Cfg) (s : St) : (step c s .sensors).1.phase 
 
 theorem not_waiting_step (c : Cfg) (s : St) (e : Ev) (h : s.phase ≠ .waiting) :
     (step c s e).1.phase ≠ .waiting := by
-  cases e <;> unfold step <;> cases hp : s.phase <;> simp only <;> (try exact absurd hp h) <;>
+  by_cases hv : ∃ ks, e = .versions ks
+  · obtain ⟨ks, rfl⟩ := hv; exact h
+  cases e <;> (try exact absurd ⟨_, rfl⟩ hv) <;> unfold step <;> cases hp : s.phase <;> simp only <;> (try exact absurd hp h) <;>
     (repeat' split) <;> simp_all [finish, markArrived, retry]
 
 theorem not_waiting_run (c : Cfg) (s : St) (es : List Ev) (h : s.phase ≠ .waiting) :
@@ -274,7 +278,12 @@ def need (c : Cfg) (s : St) : Nat :=
 
 theorem step_need (c : Cfg) (s : St) (e : Ev) (h : s.phase ≠ .waiting) :
     need c (step c s e).1 + (if e = .timer then 1 else 0) ≤ need c s ∨ (step c s e).1.phase = .loaded := by
-  cases e <;> unfold step <;> cases hp : s.phase <;> simp only <;> (try exact absurd hp h) <;>
+  by_cases hv : ∃ ks, e = .versions ks
+  · obtain ⟨ks, rfl⟩ := hv
+    left
+    show need c s + 0 ≤ need c s
+    omega
+  cases e <;> (try exact absurd ⟨_, rfl⟩ hv) <;> unfold step <;> cases hp : s.phase <;> simp only <;> (try exact absurd hp h) <;>
     (repeat' split) <;> simp_all [finish, markArrived, retry, need] <;> (try split) <;> omega
 
 theorem run_completes (c : Cfg) (s : St) (es : List Ev) (h : s.phase ≠ .waiting)
@@ -307,5 +316,101 @@ theorem need_le (c : Cfg) (s : St) (h : Inv c s) : need c s ≤ c.R := by
     have := h.1
     have := h.2.1
     simp only; split <;> omega
+
+/-! ### the frame-versions handler does not interfere with set-up -/
+
+def Ev.isVersions : Ev → Bool
+  | .versions _ => true
+  | _ => false
+
+/-- the frame-versions bookkeeping replaced -/
+def withV (s : St) (v : Nat → Bool) (x : Nat → Nat) : St := { s with versioned := v, vtx := x }
+
+@[simp] theorem withV_phase (s v x) : (withV s v x).phase = s.phase := rfl
+@[simp] theorem withV_now (s v x) : (withV s v x).now = s.now := rfl
+@[simp] theorem withV_t0 (s v x) : (withV s v x).t0 = s.t0 := rfl
+@[simp] theorem withV_allAvail (c s v x) : allAvail c (withV s v x) = allAvail c s := rfl
+@[simp] theorem withV_missing (c s v x) : missing c (withV s v x) = missing c s := rfl
+@[simp] theorem withV_start (c s v x) : start c (withV s v x) = withV (start c s) v x := rfl
+@[simp] theorem withV_mark (s v x k) : markArrived (withV s v x) k = withV (markArrived s k) v x := rfl
+@[simp] theorem withV_retry (c s v x i) : retry c (withV s v x) i = withV (retry c s i) v x := rfl
+@[simp] theorem withV_expire (c s v x i) : expire c (withV s v x) i = withV (expire c s i) v x := rfl
+@[simp] theorem withV_finish (c s v x) : finish c (withV s v x) = (withV (finish c s).1 v x, (finish c s).2) := rfl
+
+theorem step_withV (c : Cfg) (s : St) (e : Ev) (v : Nat → Bool) (x : Nat → Nat) (he : e.isVersions = false) :
+    step c (withV s v x) e = (withV (step c s e).1 v x, (step c s e).2) := by
+  cases e with
+  | versions ks => simp [Ev.isVersions] at he
+  | sensors =>
+    unfold step
+    cases hp : s.phase <;> simp only [withV_phase, hp, withV_start, withV_allAvail, withV_finish, withV_now] <;> (try rfl)
+    by_cases h1 : c.R = 0 <;> by_cases h2 : allAvail c (start c s) = true <;> simp [h1, h2] <;> rfl
+  | answer k =>
+    unfold step
+    cases hp : s.phase <;> simp only [withV_phase, hp, withV_mark, withV_allAvail, withV_finish] <;> (try rfl)
+    by_cases h2 : allAvail c (markArrived s k) = true <;> simp [h2]
+  | wait d =>
+    unfold step
+    cases hp : s.phase <;> simp only [withV_phase, hp, withV_now, withV_t0] <;> (try rfl)
+    rename_i i
+    by_cases h2 : s.t0 + i * c.T ≤ s.now + d <;> simp [h2] <;> rfl
+  | timer =>
+    unfold step
+    cases hp : s.phase <;>
+      simp only [withV_phase, hp, withV_retry, withV_expire, withV_finish, withV_missing, withV_t0] <;> (try rfl)
+    rename_i i
+    by_cases h2 : i < c.R <;> simp [h2]
+
+
+theorem step_versions (c : Cfg) (s : St) (ks : List Nat) :
+    ∃ v x, (step c s (.versions ks)).1 = withV s v x ∧
+      ∀ o ∈ (step c s (.versions ks)).2, ∃ k t, o = Out.vtx k t :=
+  ⟨_, _, rfl, by
+    intro o ho
+    simp only [step, List.mem_map] at ho
+    obtain ⟨k, _, rfl⟩ := ho
+    exact ⟨k, s.now, rfl⟩⟩
+
+def Out.isSetup : Out → Bool
+  | .vtx _ _ => false
+  | _ => true
+
+theorem withV_withV (s : St) (v v' : Nat → Bool) (x x' : Nat → Nat) : withV (withV s v x) v' x' = withV s v' x' := rfl
+
+/-- dropping every frame-versions announcement from a history changes neither the set-up state
+nor the set-up outputs -/
+theorem run_drop_versions (c : Cfg) (s : St) (v : Nat → Bool) (x : Nat → Nat) (es : List Ev) :
+    ∃ v' x', (run c (withV s v x) es).1 = withV (run c s (es.filter (fun e => !e.isVersions))).1 v' x' ∧
+      (run c (withV s v x) es).2.filter Out.isSetup =
+        (run c s (es.filter (fun e => !e.isVersions))).2.filter Out.isSetup := by
+  induction es generalizing s v x with
+  | nil => exact ⟨v, x, rfl, rfl⟩
+  | cons e es ih =>
+    by_cases he : e.isVersions = true
+    · cases e <;> simp [Ev.isVersions] at he
+      rename_i ks
+      obtain ⟨v1, x1, h1, h2⟩ := step_versions c (withV s v x) ks
+      obtain ⟨v2, x2, i1, i2⟩ := ih s v1 x1
+      refine ⟨v2, x2, ?_, ?_⟩
+      · simp only [run_cons, h1, withV_withV, List.filter_cons, Ev.isVersions, Bool.not_true,
+          Bool.false_eq_true, ↓reduceIte]
+        exact i1
+      · simp only [run_cons, h1, withV_withV, List.filter_cons, Ev.isVersions, Bool.not_true,
+          Bool.false_eq_true, ↓reduceIte, List.filter_append]
+        have : (step c (withV s v x) (.versions ks)).2.filter Out.isSetup = [] := by
+          apply List.filter_eq_nil_iff.mpr
+          intro o ho
+          obtain ⟨k, t, rfl⟩ := h2 o ho
+          simp [Out.isSetup]
+        rw [this, List.nil_append]
+        exact i2
+    · have he' : e.isVersions = false := by simpa using he
+      have hs := step_withV c s e v x he'
+      obtain ⟨v2, x2, i1, i2⟩ := ih (step c s e).1 v x
+      refine ⟨v2, x2, ?_, ?_⟩
+      · simp only [run_cons, hs, List.filter_cons, he', Bool.not_false, ↓reduceIte]
+        exact i1
+      · simp only [run_cons, hs, List.filter_cons, he', Bool.not_false, ↓reduceIte, List.filter_append]
+        rw [i2]
 
 end PlumVerif.Setup
